@@ -45,14 +45,13 @@ func init() {
 		"strings.TrimSpace": func(fr *frame, in ssa.Instruction, c *ssa.CallCommon, args []Val, st *State, reach string) Val {
 			fc := fr.fc
 			s := tArg(args, 0)
-			r := fc.fresh("trim", SString)
-			i := fc.fresh("trim_i", SInt)
-			fc.fact(fmt.Sprintf("(and (<= 0 %s) (<= (+ %s (str.len %s)) (str.len %s)) (= %s (str.substr %s %s (str.len %s))))", i.S, i.S, r.S, s.S, r.S, s.S, i.S, r.S))
-			// exactly the leading and trailing Unicode white space (as UTF-8 byte sequences) is removed
-			fc.fact(fmt.Sprintf("(str.in_re (str.substr %s 0 %s) (re.* ws$re))", s.S, i.S))
-			fc.fact(fmt.Sprintf("(str.in_re (str.substr %s (+ %s (str.len %s)) (str.len %s)) (re.* ws$re))", s.S, i.S, r.S, s.S))
-			fc.fact(fmt.Sprintf("(not (str.in_re %s (re.++ ws$re re.all)))", r.S))
-			fc.fact(fmt.Sprintf("(not (str.in_re %s (re.++ re.all ws$re)))", r.S))
+			// trim$(s) is a function of s (so that contracts can name it); exactly the leading and trailing
+			// Unicode white space (as UTF-8 byte sequences) is removed
+			fc.declareFun("trim$", []string{SString}, SString)
+			fc.declareFun("trim$off", []string{SString}, SInt)
+			r := fc.define("trim", Term{"(trim$ " + s.S + ")", SString})
+			i := Term{"(trim$off " + s.S + ")", SInt}
+			trimFacts(fc, s, r, i)
 			return r
 		},
 		"strings.Index": func(fr *frame, in ssa.Instruction, c *ssa.CallCommon, args []Val, st *State, reach string) Val {
@@ -315,6 +314,12 @@ func sprintfModel(fr *frame, in ssa.Instruction, c *ssa.CallCommon, args []Val, 
 		if !isT {
 			parts = append(parts, fc.fresh("fmtarg", SString).S)
 			continue
+		}
+		if st := varargStaticType(c.Args[1], ai-1); st != nil {
+			if t, ok := fc.fmtTyped(a, st, verb, spec); ok {
+				parts = append(parts, t.S)
+				continue
+			}
 		}
 		parts = append(parts, fc.fmtArg(a, verb, spec).S)
 	}
@@ -767,4 +772,114 @@ func init() {
 		fc.declareFun("itoa$", []string{SInt}, SString)
 		return Term{"(itoa$ " + tArg(args, 0).S + ")", SString}
 	}
+}
+
+func trimFacts(fc *FnCtx, s, r, i Term) {
+	fc.fact(fmt.Sprintf("(and (<= 0 %s) (<= (+ %s (str.len %s)) (str.len %s)) (= %s (str.substr %s %s (str.len %s))))", i.S, i.S, r.S, s.S, r.S, s.S, i.S, r.S))
+	fc.fact(fmt.Sprintf("(str.in_re (str.substr %s 0 %s) (re.* ws$re))", s.S, i.S))
+	fc.fact(fmt.Sprintf("(str.in_re (str.substr %s (+ %s (str.len %s)) (str.len %s)) (re.* ws$re))", s.S, i.S, r.S, s.S))
+	fc.fact(fmt.Sprintf("(not (str.in_re %s (re.++ ws$re re.all)))", r.S))
+	fc.fact(fmt.Sprintf("(not (str.in_re %s (re.++ re.all ws$re)))", r.S))
+}
+
+// varargStaticType: the static Go type of the k-th variadic argument (before it was boxed into any).
+func varargStaticType(v ssa.Value, k int) types.Type {
+	sl, ok := v.(*ssa.Slice)
+	if !ok {
+		return nil
+	}
+	al, ok := sl.X.(*ssa.Alloc)
+	if !ok {
+		return nil
+	}
+	for _, ref := range *al.Referrers() {
+		ia, ok := ref.(*ssa.IndexAddr)
+		if !ok {
+			continue
+		}
+		c, ok := ia.Index.(*ssa.Const)
+		if !ok || int(c.Int64()) != k {
+			continue
+		}
+		for _, r2 := range *ia.Referrers() {
+			if st, ok := r2.(*ssa.Store); ok {
+				switch mi := st.Val.(type) {
+				case *ssa.MakeInterface:
+					return mi.X.Type()
+				case *ssa.ChangeInterface:
+					return mi.X.Type()
+				}
+				return st.Val.Type()
+			}
+		}
+	}
+	return nil
+}
+
+func hasStringMethod(t types.Type) bool {
+	ms := types.NewMethodSet(t)
+	for i := 0; i < ms.Len(); i++ {
+		m := ms.At(i).Obj()
+		if m.Name() == "String" {
+			if sig, ok := m.Type().(*types.Signature); ok && sig.Params().Len() == 0 && sig.Results().Len() == 1 {
+				return true
+			}
+		}
+	}
+	return false
+}
+
+// fmtTyped: the text fmt produces under %v / %s / %d / %q for an argument of known static type.
+func (fc *FnCtx) fmtTyped(a Term, t types.Type, verb byte, spec string) (Term, bool) {
+	if spec != "" {
+		return Term{}, false
+	}
+	if _, isIface := t.Underlying().(*types.Interface); isIface {
+		// dynamic type unknown statically: dispatch on the tag for the value kinds literals hold
+		if verb != 'v' {
+			return Term{}, false
+		}
+		fc.declareFun("itoa$", []string{SInt}, SString)
+		fc.declareFun("fmtfloat$", []string{SF64}, SString)
+		fc.declareFun("fmtbytes$", []string{SString}, SString)
+		fc.declareFun("fmt$any", []string{SAny, SInt}, SString)
+		bt := fc.e.typeTag(types.NewSlice(types.Typ[types.Uint8]))
+		return fc.define("fmt", Term{fmt.Sprintf("(ite ((_ is abool) %s) (ite (abval %s) \"true\" \"false\") (ite ((_ is aint) %s) (itoa$ (aival %s)) (ite ((_ is af64) %s) (fmtfloat$ (afval %s)) (ite ((_ is astr) %s) (ite (= (atag_s %s) %d) (fmtbytes$ (asval %s)) (asval %s)) (fmt$any %s %d)))))", a.S, a.S, a.S, a.S, a.S, a.S, a.S, a.S, bt, a.S, a.S, a.S, int(verb)), SString}), true
+	}
+	if hasStringMethod(t) && (verb == 'v' || verb == 's') {
+		// a Stringer: the text is what its String method returns: strof$T(value)
+		name := "strof$" + sanitize(shortType(t))
+		srt := fc.e.sortOf(t)
+		fc.declareFun(name, []string{srt}, SString)
+		return Term{"(" + name + " " + fc.e.unbox(a, t).S + ")", SString}, true
+	}
+	b, ok := t.Underlying().(*types.Basic)
+	if !ok {
+		return Term{}, false
+	}
+	switch {
+	case b.Info()&types.IsString != 0:
+		if verb == 'q' {
+			fc.declareFun("quote$", []string{SString}, SString)
+			return Term{"(quote$ (asval " + a.S + "))", SString}, true
+		}
+		if verb == 's' || verb == 'v' {
+			return Term{"(asval " + a.S + ")", SString}, true
+		}
+	case b.Info()&types.IsBoolean != 0:
+		if verb == 'v' || verb == 't' {
+			return Term{"(ite (abval " + a.S + ") \"true\" \"false\")", SString}, true
+		}
+	case b.Info()&types.IsInteger != 0:
+		if verb == 'v' || verb == 'd' {
+			fc.declareFun("itoa$", []string{SInt}, SString)
+			return Term{"(itoa$ (aival " + a.S + "))", SString}, true
+		}
+	case b.Info()&types.IsFloat != 0:
+		if verb == 'v' {
+			fc.declareFun("fmtfloat$", []string{SF64}, SString)
+			return Term{"(fmtfloat$ (afval " + a.S + "))", SString}, true
+		}
+	}
+	return Term{}, false
 }
